@@ -1,6 +1,7 @@
 // harness: same case protocol as ocaml/driver.ml, run against the real crate.
 mod conv;
 mod lanes;
+mod plug;
 mod sexp;
 use conv::*;
 use sexp::Sexp;
